@@ -92,6 +92,7 @@ PREDS = {
     'sig_fpe': lambda e: e.get('sig') == 'FPE',
     'sig_segv': lambda e: e.get('sig') in ('SEGV', 'BUS'),
     'r_nan': lambda e: isinstance(e.get('r'), list) and f_is_nan(e['r']),
+    'hw_hit': lambda e: e.get('hw', 0) > 0,
     'partial_count': lambda e: e.get('n', 0) < e.get('N', 0),
     'probe_only_doc_implication_missing': lambda e: _probe_only_missing(e, {'BMI', 'POPCNT'}),
     'ldexp_exp_beyond_two_steps': lambda e: abs(int.from_bytes(bytes(e['ex']), 'little', signed=True)) > (252 if len(e['a']) == 4 else 2044),
